@@ -16,15 +16,15 @@ import (
 //   gen_gvk_order_first/last   kyaml/resid/gvk.go (orderFirst / orderLast: the order of the merged rule table)
 //   gen_prefix_skip / gen_suffix_skip   api/internal/builtins/{Prefix,Suffix}Transformer.go (kinds never renamed)
 
-type nbrRow struct {
+type nrRow struct {
 	Group      string      `json:"group"`
 	Version    string      `json:"version"`
 	Kind       string      `json:"kind"`
 	FieldSpecs []fieldSpec `json:"fieldSpecs"`
 }
 
-// pkgVarExpr finds the initialiser of a package-level var/const.
-func pkgVarExpr(files []*ast.File, name string) ast.Expr {
+// nrPkgVarExpr finds the initialiser of a package-level var/const.
+func nrPkgVarExpr(files []*ast.File, name string) ast.Expr {
 	for _, f := range files {
 		for _, d := range f.Decls {
 			gd, ok := d.(*ast.GenDecl)
@@ -44,7 +44,7 @@ func pkgVarExpr(files []*ast.File, name string) ast.Expr {
 	return nil
 }
 
-func litString(e ast.Expr) (string, bool) {
+func nrLitString(e ast.Expr) (string, bool) {
 	bl, ok := e.(*ast.BasicLit)
 	if !ok || bl.Kind != token.STRING {
 		return "", false
@@ -52,15 +52,15 @@ func litString(e ast.Expr) (string, bool) {
 	return constant.StringVal(constant.MakeFromLiteral(bl.Value, token.STRING, 0)), true
 }
 
-// stringSliceLit evaluates []string{"a", "b", ...}.
-func stringSliceLit(e ast.Expr) ([]string, error) {
+// nrStringSliceLit evaluates []string{"a", "b", ...}.
+func nrStringSliceLit(e ast.Expr) ([]string, error) {
 	cl, ok := e.(*ast.CompositeLit)
 	if !ok {
 		return nil, fmt.Errorf("not a composite literal")
 	}
 	out := []string{}
 	for _, el := range cl.Elts {
-		s, ok := litString(el)
+		s, ok := nrLitString(el)
 		if !ok {
 			return nil, fmt.Errorf("element is not a string literal")
 		}
@@ -69,11 +69,11 @@ func stringSliceLit(e ast.Expr) ([]string, error) {
 	return out, nil
 }
 
-type gvkLit struct{ Group, Version, Kind string }
+type nrGvkLit struct{ Group, Version, Kind string }
 
-// gvkFields evaluates resid.Gvk{Group: "..", Version: "..", Kind: ".."}.
-func gvkFields(e ast.Expr) (gvkLit, error) {
-	var g gvkLit
+// nrGvkFields evaluates resid.Gvk{Group: "..", Version: "..", Kind: ".."}.
+func nrGvkFields(e ast.Expr) (nrGvkLit, error) {
+	var g nrGvkLit
 	cl, ok := e.(*ast.CompositeLit)
 	if !ok {
 		return g, fmt.Errorf("Gvk value is not a composite literal")
@@ -87,7 +87,7 @@ func gvkFields(e ast.Expr) (gvkLit, error) {
 		if !ok {
 			return g, fmt.Errorf("bad Gvk key")
 		}
-		v, ok := litString(kv.Value)
+		v, ok := nrLitString(kv.Value)
 		if !ok {
 			return g, fmt.Errorf("Gvk field %s is not a string literal", k.Name)
 		}
@@ -105,13 +105,13 @@ func gvkFields(e ast.Expr) (gvkLit, error) {
 	return g, nil
 }
 
-// skipListLit evaluates types.FsSlice{{Gvk: resid.Gvk{...}}, ...}; any other field makes it fail.
-func skipListLit(e ast.Expr) ([]gvkLit, error) {
+// nrSkipListLit evaluates types.FsSlice{{Gvk: resid.Gvk{...}}, ...}; any other field makes it fail.
+func nrSkipListLit(e ast.Expr) ([]nrGvkLit, error) {
 	cl, ok := e.(*ast.CompositeLit)
 	if !ok {
 		return nil, fmt.Errorf("not a composite literal")
 	}
-	out := []gvkLit{}
+	out := []nrGvkLit{}
 	for _, el := range cl.Elts {
 		ecl, ok := el.(*ast.CompositeLit)
 		if !ok {
@@ -127,7 +127,7 @@ func skipListLit(e ast.Expr) ([]gvkLit, error) {
 		if k, ok := kv.Key.(*ast.Ident); !ok || k.Name != "Gvk" {
 			return nil, fmt.Errorf("skip list element sets a field other than Gvk")
 		}
-		g, err := gvkFields(kv.Value)
+		g, err := nrGvkFields(kv.Value)
 		if err != nil {
 			return nil, err
 		}
@@ -136,7 +136,7 @@ func skipListLit(e ast.Expr) ([]gvkLit, error) {
 	return out, nil
 }
 
-func coqStrs(l []string) string {
+func nrCoqStrs(l []string) string {
 	p := make([]string, len(l))
 	for i, s := range l {
 		p[i] = coqStr(s)
@@ -159,7 +159,7 @@ func init() {
 		if !ok {
 			return "", fmt.Errorf("constant nameReferenceFieldSpecs not found in %s", dir)
 		}
-		var m map[string][]nbrRow
+		var m map[string][]nrRow
 		if err := yaml.UnmarshalStrict([]byte(txt), &m); err != nil {
 			return "", fmt.Errorf("nameReferenceFieldSpecs: %v", err)
 		}
@@ -192,15 +192,15 @@ func init() {
 		}
 		for _, t := range []struct{ goName, coqName string }{
 			{"orderFirst", "gen_gvk_order_first"}, {"orderLast", "gen_gvk_order_last"}} {
-			e := pkgVarExpr(files, t.goName)
+			e := nrPkgVarExpr(files, t.goName)
 			if e == nil {
 				return "", fmt.Errorf("kyaml/resid: var %s not found", t.goName)
 			}
-			l, err := stringSliceLit(e)
+			l, err := nrStringSliceLit(e)
 			if err != nil {
 				return "", fmt.Errorf("kyaml/resid %s: %v", t.goName, err)
 			}
-			fmt.Fprintf(&b, "Definition %s : list string := %s.\n\n", t.coqName, coqStrs(l))
+			fmt.Fprintf(&b, "Definition %s : list string := %s.\n\n", t.coqName, nrCoqStrs(l))
 		}
 
 		// ---- kinds the prefix / suffix transformers never rename
@@ -210,11 +210,11 @@ func init() {
 		}
 		for _, t := range []struct{ goName, coqName string }{
 			{"prefixFieldSpecsToSkip", "gen_prefix_skip"}, {"suffixFieldSpecsToSkip", "gen_suffix_skip"}} {
-			e := pkgVarExpr(bfiles, t.goName)
+			e := nrPkgVarExpr(bfiles, t.goName)
 			if e == nil {
 				return "", fmt.Errorf("api/internal/builtins: var %s not found", t.goName)
 			}
-			l, err := skipListLit(e)
+			l, err := nrSkipListLit(e)
 			if err != nil {
 				return "", fmt.Errorf("api/internal/builtins %s: %v", t.goName, err)
 			}
